@@ -22,7 +22,7 @@ cp "$SRC/demo_test.go" zz_seeded_demo_test.go
 if go test -tags verif -count=1 -run 'TestSeeded' . >/tmp/vs-$$.log 2>&1; then res "REJECT demo passes with change"; exit 3; fi
 rm -f /tmp/vs-$$.log
 cd /verif
-if [ "${SEED_OVERLAY:-0}" = "1" ] && [ "$ID" != "C10" ] && [ "$ID" != "C11" ]; then
+if [ "${SEED_OVERLAY:-0}" = "2" ] || { [ "${SEED_OVERLAY:-0}" = "1" ] && [ "$ID" != "C10" ] && [ "$ID" != "C11" ]; }; then
   # interim mode (used while another run occupies /repo and /verif/.bin/check): the patched files of
   # the scratch worktree are laid over /repo's with `go build -overlay`; /repo itself is not touched.
   rm -f "$WT/zz_seeded_demo_test.go"
